@@ -205,7 +205,7 @@ def post_subdivide(run, snap, res, args, kwargs):
                     return run.violate(mon, "subdivide-kept-small", f"region {c}:{s}-{e} < min_size {mn} kept", w)
                 continue
             counts = M.subdivide_counts(span, avg)
-            ties += len(counts) > 1
+            ties += M.subdivide_is_tie(span, avg)
             bins = []
             while i < len(gotc) and gotc[i][1] >= s and gotc[i][2] <= e and gotc[i][1] < e:
                 bins.append(gotc[i])
